@@ -65,6 +65,50 @@ def solve(ex, assertions, timeout_ms=TIMEOUT_MS):
     return r, (s.model() if r == z3.sat else None), dt, s
 
 
+def abstract_const_div(exprs):
+    """Replace every signed/unsigned bit-vector division by a positive constant c in the given
+    expressions by a fresh quotient q constrained by the division lemma (t = c*q + r, |r| < c,
+    r has the sign of t), which is equivalent and avoids bit-blasting the divider circuit.
+    Returns (new_exprs, lemmas)."""
+    cache, lemmas = {}, []
+    memo = {}
+
+    def walk(e):
+        k = e.get_id()
+        if k in memo:
+            return memo[k]
+        if z3.is_app(e) and e.num_args() > 0:
+            args = [walk(a) for a in e.children()]
+            dk = e.decl().kind()
+            if dk in (z3.Z3_OP_BSDIV, z3.Z3_OP_BSDIV_I, z3.Z3_OP_BUDIV, z3.Z3_OP_BUDIV_I) and \
+                    z3.is_bv_value(args[1]) and 0 < args[1].as_long() < (1 << (args[1].size() - 2)):
+                t, c = args[0], args[1].as_long()
+                w = t.size()
+                key = (t.get_id(), c, dk)
+                if key not in cache:
+                    q = z3.BitVec(f"q!{len(cache)}", w)
+                    r = z3.BitVec(f"r!{len(cache)}", w)
+                    cache[key] = q
+                    W = w + 8
+                    signed = dk in (z3.Z3_OP_BSDIV, z3.Z3_OP_BSDIV_I)
+                    ext = (lambda x: z3.SignExt(8, x)) if signed else (lambda x: z3.ZeroExt(8, x))
+                    lem = [ext(t) == ext(q) * z3.BitVecVal(c, W) + ext(r)]
+                    if signed:
+                        lem += [z3.Implies(t >= 0, z3.And(r >= 0, r < c)),
+                                z3.Implies(t < 0, z3.And(r <= 0, r > -c))]
+                    else:
+                        lem += [z3.ULT(r, c)]
+                    lemmas.extend(lem)
+                res = cache[key]
+            else:
+                res = e.decl()(*args) if args else e
+        else:
+            res = e
+        memo[k] = res
+        return res
+    return [walk(e) for e in exprs], lemmas
+
+
 def model_dict(model, names):
     out = {}
     for k, t in names.items():
@@ -83,7 +127,7 @@ def model_dict(model, names):
     return out
 
 
-def prove(run, ob, ex, hyps, claim, names=None, replay=None, reach=True):
+def prove(run, ob, ex, hyps, claim, names=None, replay=None, reach=True, prefer=None):
     """Discharge `hyps => claim` (valid for all values) by asking z3 for hyps ∧ ¬claim.
 
     unsat -> discharged; sat -> model -> replay(model_dict) -> violated iff reproduced natively,
@@ -104,6 +148,14 @@ def prove(run, ob, ex, hyps, claim, names=None, replay=None, reach=True):
         return ob.discharged(f"unsat in {dt:.3f}s")
     if r != z3.sat:
         return ob.inconclusive(f"solver answered {r} ({s.reason_unknown()})")
+    if prefer:
+        for extra in prefer:
+            r2, m2, dt2, _s2 = solve(ex, hyps + [z3.Not(claim)] + list(extra), 20000)
+            ob.solver_s += dt2
+            ob.queries += 1
+            if r2 == z3.sat:
+                m = m2
+                break
     w = model_dict(m, names)
     if replay is None:
         return ob.inconclusive(f"sat, model {w}, but no replay available")
